@@ -44,7 +44,8 @@ def _lit_kind(typ, v):
         return "cross"
     if isinstance(v, int) and not isinstance(v, bool) and not -(2**63) <= v < 2**63:
         return "incomparable"
-    if typ in ("float", "double") and isinstance(v, int) and abs(v) > 2**53:
+    # an int literal on a float column is coerced through the column's float type: exact only up to 2^24 (float) / 2^53 (double)
+    if typ in ("float", "double") and isinstance(v, int) and abs(v) > (2**24 if typ == "float" else 2**53):
         return "cross"
     return "same"
 
